@@ -82,8 +82,12 @@ where
     /// It does not clear the cache
     pub fn commit(&mut self) -> Result<(), Box<dyn Error>> {
         for (key, value) in self.cache.iter() {
+            #[cfg(brc20_prog_verif)]
+            crate::verif::fp("bdb.put");
             self.db.put(&key.encode_vec(), &value.encode_vec())?;
         }
+        #[cfg(brc20_prog_verif)]
+        crate::verif::fp("bdb.flush");
         self.db.flush()?;
         Ok(())
     }
@@ -126,6 +130,8 @@ where
         let last_block = self.last_key()?;
         if let Some(end) = last_block {
             while end >= current {
+                #[cfg(brc20_prog_verif)]
+                crate::verif::fp("bdb.delete");
                 self.db.delete(&U64ED::from(current).encode_vec())?;
                 self.cache.remove(&current);
                 current += 1;
